@@ -102,8 +102,11 @@ Lemma ns_tail (len : rule -> N) (u h : rule -> bool) ms :
   = existsb (fun r => (len r =? fold_right (fun r acc => N.max (len r) acc) 0 ms)%N && u r && h r) ms.
 Proof.
   rewrite !filter_filter, nonempty_filter_existsb. apply existsb_ext_in'. intros r Hr.
-  pose proof (max_ub len ms r Hr) as Hub. f_equal. f_equal.
-  apply eq_true_iff_eq. rewrite N.leb_le, N.eqb_eq. lia.
+  pose proof (max_ub len ms r Hr) as Hub.
+  assert (E : (fold_right (fun r acc => N.max (len r) acc) 0 ms <=? len r)%N
+              = (len r =? fold_right (fun r acc => N.max (len r) acc) 0 ms)%N)
+    by (apply eq_true_iff_eq; rewrite N.leb_le, N.eqb_eq; lia).
+  rewrite E. destruct (len r =? _)%N, (u r), (h r); reflexivity.
 Qed.
 
 Section Namespace.
